@@ -19,7 +19,8 @@ impl Table {
     }
     pub fn qk(&self, t: &str) -> &'static str { match (t, self.alt) { ("k1", false) => "q", ("k1", true) => "name", ("k2", false) => "page", _ => "id" } }
     pub fn qv(&self, t: &str) -> (&'static str, &'static str) {
-        match (t, self.alt) { ("v1", false) => ("1", "1"), ("v1", true) => ("ohkami", "ohkami"), ("ve", false) => ("a%26b%3D", "a&b="), ("ve", true) => ("%e7%8b%bc", "狼"), _ => ("", "") }
+        match (t, self.alt) { ("v1", false) => ("1", "1"), ("v1", true) => ("ohkami", "ohkami"), ("ve", false) => ("a%26b%3D", "a&b="), ("ve", true) => ("%e7%8b%bc", "狼"),
+                              ("vq", false) => ("a=b", "a=b"), ("vq", true) => ("x==%3D=y", "x====y"), _ => ("", "") }
     }
     pub fn hname(&self, n: &str) -> &'static str {
         match n { "Host" => "Host", "Accept" => "Accept", "CT" => "Content-Type", "XA" => "X-Request-Id", "XB" => "X-Custom-Flag", "CL" => "Content-Length",
@@ -155,7 +156,7 @@ pub fn observe_after(req: &Value, t: &Table, built: &Built, segs: Vec<Vec<u8>>, 
                     for tk in ["s1", "s2", "se"] { if t.seg(tk).1 == x { return tk.to_string() } } format!("?{}", util::clip(x, 12)) }).collect() };
                 let query: Vec<Value> = r.query.iter().map(|(k, val)| {
                     let kt = ["k1", "k2"].iter().find(|tk| t.qk(tk) == k).map(|x| x.to_string()).unwrap_or(format!("?{k}"));
-                    let vt = ["v1", "ve", "e"].iter().find(|tk| t.qv(tk).1 == val).map(|x| x.to_string()).unwrap_or(format!("?{val}"));
+                    let vt = ["v1", "ve", "e", "vq"].iter().find(|tk| t.qv(tk).1 == val).map(|x| x.to_string()).unwrap_or(format!("?{val}"));
                     json!([kt, vt]) }).collect();
                 let mut names: Vec<String> = vec![];
                 for h in arr(&req["headers"]) { let n = s(&h["n"]).to_string(); if !names.contains(&n) { names.push(n) } }
@@ -216,13 +217,13 @@ pub fn gen(rng: &mut Rng, i: usize) -> Value {
     let nseg = rng.below(4);
     let segs: Vec<&str> = (0..nseg).map(|_| *rng.pick(&["s1", "s2", "se"])).collect();
     let hasq = rng.chance(1, 2);
-    let query: Vec<Value> = if hasq { (0..rng.below(4)).map(|_| json!([*rng.pick(&["k1", "k2"]), *rng.pick(&["v1", "ve", "e"])])).collect() } else { vec![] };
+    let query: Vec<Value> = if hasq { (0..rng.below(4)).map(|_| json!([*rng.pick(&["k1", "k2"]), *rng.pick(&["v1", "ve", "e", "vq"])])).collect() } else { vec![] };
     let hl = [("Host", "canon", "v1"), ("Host", "lower", "v2"), ("Accept", "mixed", "v1"), ("Accept", "upper", "v2"), ("Accept", "canon", "vl"), ("CT", "canon", "vs"), ("CT", "mixed", "v1"),
               ("XA", "canon", "v1"), ("XA", "canon", "v2"), ("XA", "lower", "v2"), ("XB", "mixed", "vl"), ("XB", "upper", "vs"), ("XA", "upper", "vs"), ("Host", "mixed", "vs"),
               ("User-Agent", "upper", "v1"), ("User-Agent", "mixed", "v2"), ("If-None-Match", "mixed", "v2"), ("Sec-WebSocket-Key", "upper", "v1"), ("Referer", "lower", "vs"), ("Via", "upper", "v1"), ("TE", "lower", "v1")];
     let mut headers = vec![]; let mut long = 0;
     for _ in 0..rng.below(7) { let h = rng.pick(&hl); if h.2 == "vl" { long += 1; if long > 3 { continue } } headers.push(json!({"n": h.0, "c": h.1, "v": h.2})) }
-    let body = if ["POST", "PUT", "PATCH", "DELETE"].contains(&m) && rng.chance(2, 3) {
+    let body = if (["POST", "PUT", "PATCH", "DELETE"].contains(&m) && rng.chance(2, 3)) || rng.chance(1, 4) {
         json!({"size": *rng.pick(&["small", "fill", "over", "big"]), "first": if rng.chance(1, 3) { "Z" } else { "N" }, "nul": rng.chance(1, 3), "clcase": *rng.pick(&["canon", "lower", "mixed"])})
     } else { json!({"size": "none", "first": "N", "nul": false, "clcase": "canon"}) };
     let faults = ["trunc-method", "trunc-target", "trunc-version", "trunc-header-name", "trunc-header-value", "trunc-before-blank-line", "trunc-body",
